@@ -632,7 +632,17 @@ public:
 
   void rename(const variable_vector_t &from,
               const variable_vector_t &to) override {
-    CRAB_WARN(domain_name(), "::rename not implemented");
+    if (is_bottom() || is_top()) {
+      return;
+    }
+    variable_vector_t allfrom(from), allto(to);
+    for (unsigned i = 0, sz = from.size(); i < sz && i < to.size(); ++i) {
+      for (auto coefficient : crab_domain_params_man::get().coefficients()) {
+        allfrom.push_back(get_ghost_var(from[i], coefficient));
+        allto.push_back(get_ghost_var(to[i], coefficient));
+      }
+    }
+    m_base_absval.rename(allfrom, allto);
   }
 
   void expand(const variable_t &var, const variable_t &new_var) override {
